@@ -187,4 +187,44 @@ theorem C15_history (rnd : Rat → Rat) (ctl : Ctl) (s : Option CState) (es : Li
   obtain ⟨u, h1, h2, _⟩ := C15_no_restamp rnd o k ctl.globalDry r.cfg r.pre r.preG r.view h r.nowMock r.nowReal e he obj hc
   exact ⟨u, h1, h2⟩
 
+/-! ### The monitor's predicate is met by the objects the model writes -/
+
+/-- The object `addTaint` writes passes the monitor's `preciseUpdate` (taints compared up to order). -/
+theorem C15_precise_add (nowSec : Int) (effect : String) (u : Node) (h : hasTaint escKey u = false) :
+    Spec.C15.preciseUpdate nowSec effect u { u with taints := u.taints ++ [newEscTaint nowSec effect] } = true := by
+  unfold Spec.C15.preciseUpdate
+  simp only [h, Bool.not_false, Bool.true_and, Bool.false_and, Bool.or_false, Bool.and_eq_true, beq_iff_eq, Bool.or_eq_true]
+  refine ⟨trivial, Or.inl ?_⟩
+  exact List.isPerm_iff.mpr (List.Perm.refl _)
+
+/-- The object `deleteTaint` writes (swap-remove of the first escalator taint) passes it too. -/
+theorem C15_precise_delete (nowSec : Int) (effect : String) (u : Node) (h : hasTaint escKey u = true) :
+    Spec.C15.preciseUpdate nowSec effect u { u with taints := swapRemoveFirst (fun t => t.key == escKey) u.taints } = true := by
+  unfold Spec.C15.preciseUpdate
+  simp only [h, Bool.not_true, Bool.false_and, Bool.true_and, Bool.false_or, Bool.and_eq_true, beq_iff_eq]
+  refine ⟨trivial, ?_⟩
+  -- the first escalator taint exists
+  have hex : ∃ i, u.taints.findIdx? (fun t => t.key == escKey) = some i := by
+    unfold hasTaint at h
+    cases hf : u.taints.findIdx? (fun t => t.key == escKey) with
+    | some i => exact ⟨i, rfl⟩
+    | none =>
+      rw [List.findIdx?_eq_none_iff] at hf
+      rw [List.any_eq_true] at h
+      obtain ⟨t, ht, hk⟩ := h
+      have := hf t ht
+      simp [hk] at this
+  obtain ⟨i, hi⟩ := hex
+  obtain ⟨x, hx, hpx, hperm⟩ := swapRemoveFirst_perm _ _ _ hi
+  rw [List.any_eq_true]
+  have hxmem : x ∈ u.taints := List.mem_of_getElem? hx
+  refine ⟨x, hxmem, ?_⟩
+  simp only [Bool.and_eq_true]
+  refine ⟨hpx, ?_⟩
+  apply List.isPerm_iff.mpr
+  -- u.taints ~ x :: R  ⇒  R ~ u.taints.erase x
+  have h1 : (u.taints.erase x).Perm ((x :: swapRemoveFirst (fun t => t.key == escKey) u.taints).erase x) := hperm.erase x
+  simp only [List.erase_cons_head] at h1
+  exact h1.symm
+
 end Esc.P
